@@ -1,5 +1,5 @@
 """The check pipeline and its pluggable correspondence runners."""
-import json, os, re, sys, time, tempfile, shutil
+import json, subprocess, os, re, sys, time, tempfile, shutil
 from dataclasses import dataclass, field
 from . import common as C
 
@@ -63,7 +63,17 @@ def run_fncorr(ctx, suites):
     out_path = os.path.join(C.CACHE, f'fncorr-{ctx.pid}-{os.getpid()}.json')
     cmd = [os.path.join(C.TARGET, 'fncorr'), '--model', C.MODEL, '--tier', ctx.tier,
            '--seed', str(ctx.seed), '--out', out_path] + suites
-    rc, out = C.run(cmd, timeout=7200)
+    # the functions of /repo run in-process: one that does not return on some generated input would hang the whole check, so the
+    # run is bounded (the quick tier takes under two minutes, the thorough tier under twenty) and running out of time is reported
+    limit = 7200 if ctx.tier == 'thorough' else 1500
+    try:
+        rc, out = C.run(cmd, timeout=limit)
+    except subprocess.TimeoutExpired:
+        path = C.write_replay(ctx.pid, 'correspondence', dict(
+            correspondence=f'fn-corr({",".join(suites)}): the run of the real functions on the generated inputs did not finish within {limit} s: a function under test does not return on some input',
+            suites=suites, seed=ctx.seed, tier=ctx.tier, theorems_no_longer_about_the_code=C.props_theorems(ctx.pid)))
+        ctx.violations.append((path, True, f'function-level correspondence ({", ".join(suites)}) did not finish within {limit} s'))
+        return
     C.log(out.strip())
     if rc != 0 or not os.path.exists(out_path):
         raise C.Infra(f'fncorr failed (rc={rc}): {out[-400:]}')
@@ -178,7 +188,15 @@ def _stream(ctx, modes, env=None, seed=None, tag=''):
     out_path = os.path.join(C.CACHE, f'streamcorr-{ctx.pid}-{os.getpid()}.json')
     cmd = [os.path.join(C.TARGET, 'streamcorr'), '--model', C.MODEL, '--tier', ctx.tier, '--seed', str(ctx.seed if seed is None else seed),
            '--threads', '12', '--out', out_path] + modes
-    rc, out = C.run(cmd, timeout=14400, env=env)
+    limit = 14400 if ctx.tier == 'thorough' else 1500
+    try:
+        rc, out = C.run(cmd, timeout=limit, env=env)
+    except subprocess.TimeoutExpired:
+        path = C.write_replay(ctx.pid, 'correspondence', dict(
+            correspondence=f'stream-corr({",".join(modes)}): the real tool under --dry-run --fe_stream_override did not finish the generated cases within {limit} s: the filtering loop does not return on some stream',
+            modes=modes, seed=ctx.seed, tier=ctx.tier, theorems_no_longer_about_the_code=C.props_theorems(ctx.pid)))
+        ctx.violations.append((path, True, f'stream-level correspondence ({", ".join(modes)}) did not finish within {limit} s'))
+        return
     for l in out.strip().splitlines():
         C.log(l[:160])
     if rc != 0 or not os.path.exists(out_path):
@@ -333,6 +351,10 @@ def e2e_sanity(ctx):
     cases += [dict(id=5000 + m, mask=m, bare=False, quietstatus=True) for m in range(0, 512, step_bare)]
     # a stash whose reflog was expired (refs/stash still holds the work; `git stash list` is empty), with and without a gc
     cases += [dict(id=6000 + m, mask=m, bare=False, stash_expired=2) for m in range(512) if m >> e2e.VIOLATIONS.index('stash') & 1]      # all 256 subsets that contain the stash; with the gc (without it the stash's loose objects alone get the repository refused)
+    # core.ignorecase=true and a local branch that is a case variant of one of origin's branches (same commit)
+    cases += [dict(id=8000 + m, mask=m, bare=False, ignorecase=True, casevariant=True) for m in (128, 129, 136, 192, 128 + 256)]
+    # a superproject with an initialised submodule: fresh, with the submodule moved to another commit, with the moved pointer staged
+    cases += [dict(id=9000 + m, mask=m, bare=False, submodule=True) for m in (0, 1, 2)]
     # --sensitive on a clone with an origin: a refusal must come before the mirror fetch touches any ref
     cases += [dict(id=7000 + m, mask=m, bare=False, sensitive=True) for m in range(0, 512, step_bare)]
     results = e2e.run_pool(e2e.sanity_case, cases)
